@@ -10,6 +10,10 @@ package run
 //@ func checkMetricKeys(conf Config, schema base.LogSchema, orchestrationKeys []string) error
 //@   modifies nothing
 //@   ensures[metric-keys-validated] result == nil ==> len(conf.MetricKeys) > 0 && forall i int :: 0 <= i && i < len(conf.MetricKeys) ==> base.hasf(schema, key(conf.MetricKeys[i]))
+// ... and none is also an orchestration key (the label names key_<field> of a pipeline's metrics must be distinct: duplicate
+// label names make the registry panic when the pipeline is created)
+//@   ensures[no-metric-key-is-an-orchestration-key] result == nil ==> forall i int, j int :: 0 <= i && i < len(conf.MetricKeys) && 0 <= j && j < len(orchestrationKeys) ==> orchestrationKeys[j] != conf.MetricKeys[i]
+//@   loop 1: invariant -1 <= rangeindex && rangeindex < len(conf.MetricKeys) && forall i int, j int :: 0 <= i && i <= rangeindex && 0 <= j && j < len(orchestrationKeys) ==> orchestrationKeys[j] != conf.MetricKeys[i]
 
 // the decoded configuration is an ARBITRARY value of its type (absent sections are nil interfaces, empty lists): the
 // loader must report every such case as an error value. No precondition on the file.
